@@ -20,11 +20,22 @@ def content_xml(t0, t1):
 TEXTS = ["", "a", " a "]
 
 
-def save_neutral(k0: int, k1: int, touch_content: bool, touch_styles: bool, pretty_first: bool) -> bool:
+def _skel(n):
+    """element structure, attributes and non-blank text (for parts without mixed content)"""
+    return (n.tag, sorted(n.attrib.items()), (n.text or "").strip(), [_skel(c) for c in n._children], (n.tail or "").strip())
+
+
+import os
+
+K0 = int(os.environ.get("VERIF_K0", "0"))  # first text, concrete per process
+
+
+def save_neutral(k1: int, touch_content: bool, touch_styles: bool, pretty_first: bool, touch_manifest: bool) -> bool:
     """
-    pre: 0 <= k0 <= 2 and 0 <= k1 <= 2
+    pre: 0 <= k1 <= 2
     post: _
     """
+    k0 = K0
     # (the part bytes must be concrete for the XML parser: the texts are chosen by symbolic indexes)
     t0, t1 = TEXTS[k0], TEXTS[k1]
     c = MemContainer({"content.xml": content_xml(t0, t1)})
@@ -33,6 +44,8 @@ def save_neutral(k0: int, k1: int, touch_content: bool, touch_styles: bool, pret
         doc.body  # noqa: B018 - loads content.xml into the part cache before saving
     if touch_styles:
         doc.styles.root  # noqa: B018
+    if touch_manifest:
+        doc.manifest.add_full_path("Pictures/x.png", "image/png")  # an edit of the manifest made in memory
     ref_doc = Document(MemContainer({"content.xml": content_xml(t0, t1)}))
     ref_doc.save(pretty=False)
     plain_reference = ref_doc.container.saved[-1]["content.xml"]
@@ -45,4 +58,11 @@ def save_neutral(k0: int, k1: int, touch_content: bool, touch_styles: bool, pret
     ok = S.canon(ET.fromstring(doc.container.saved[-1]["content.xml"])) == S.canon(ET.fromstring(plain_reference))
     ok = ok and S.canon(doc.content.root._Element__element) == content_after_1 == S.canon(ref_doc.content.root._Element__element)
     ok = ok and S.canon(doc.styles.root._Element__element) == styles_after_1 == S.canon(ref_doc.styles.root._Element__element)
+    # every XML part the first save wrote (pretty or not) is, up to ignorable white space, what the plain save writes
+    first, second = doc.container.saved[0], doc.container.saved[1]
+    ok = ok and sorted(k for k, v in first.items() if v is not None) == sorted(k for k, v in second.items() if v is not None)
+    for name in ("styles.xml", "meta.xml", "settings.xml", "META-INF/manifest.xml"):
+        ok = ok and _skel(ET.fromstring(first[name])) == _skel(ET.fromstring(second[name]))
+    if touch_manifest:
+        ok = ok and b"Pictures/x.png" in first["META-INF/manifest.xml"]
     return done(ok)
